@@ -226,6 +226,8 @@ class Ev:
     def ev_Name(self, n):
         if n.id in self.env:
             return self.env[n.id]
+        if n.id == "self" and self.self_cls is not None:
+            return Instance(self.self_cls, "self")     # the object under evaluation, passed on as a value
         r = self.repo.lookup(self.mod, n.id)
         if r is not None:
             if r[0] == "const":
